@@ -32,6 +32,10 @@ def cases(seed, tier):
         pool = pool + c10.cases(seed + 104729, tier) + c10.cases(seed + 1299709, tier)
     for spec in pool[:1500]:
         out.append(dict(spec, mode='consistency'))
+    # large samples (the selection must still be a function of ALL rows)
+    for r in range(3 if tier == 'quick' else 18):
+        out.append({'mode': 'consistency', 'kind': 'family', 'n': int(rng.choice([10000, 12500, 25000])), 'tau': float(rng.uniform(0.2, 0.7)),
+                    'fam': str(rng.choice(biv.FAMILIES)), 'seed': int(rng.integers(1 << 31))})
     for fam in biv.FAMILIES:
         for tau in CELL_TAUS[tier]:
             for s in range(SEEDS[tier] // 20):
@@ -54,7 +58,11 @@ def _consistency(spec, ctx):
     where = {'kind': spec['kind'], 'n': int(len(X))}
     X0 = X.copy()
     ok, m = ctx.call(select_copula, X)
-    tb = rank.tau_b(X[:, 0], X[:, 1])
+    if len(X) > 4000:
+        from scipy.stats import kendalltau          # O(n log n); cross-checked against the O(n^2) definition below 600 rows
+        tb = float(kendalltau(X[:, 0], X[:, 1])[0])
+    else:
+        tb = rank.tau_b(X[:, 0], X[:, 1])
     outside = (X < 0).any() or (X > 1).any()
     constant = len(np.unique(X[:, 0])) == 1 or len(np.unique(X[:, 1])) == 1
     ctx.check(np.array_equal(X, X0), 'select.input-unchanged', 'C11:input-modified', where)
